@@ -284,9 +284,11 @@ def run_query(q, shape, scratch_root, tier):
         if q.get('no_slice'):
             cb.remove('--slice-formula')
         r.cmds.append(' '.join(cb))
+        if os.environ.get('KV_KEEP'):
+            open(os.path.join(sdir, 'cmds.txt'), 'w').write('\n'.join(r.cmds) + '\n')
         outp = os.path.join(sdir, 'out.json')
         tmo = q.get('timeout', {}).get(tier, 600) if isinstance(q.get('timeout'), dict) else q.get('timeout', 600)
-        rc, _, err, secs = sh(cb, timeout=tmo, mem_gb=q.get('mem_gb', 12), stdout_path=outp)
+        rc, _, err, secs = sh(cb, timeout=tmo, mem_gb=int(os.environ.get('KV_MEM_GB', q.get('mem_gb', 12))), stdout_path=outp)
         r.solver_s = secs
         if rc == -9:
             r.reason = 'cbmc timeout after %ds' % tmo
@@ -339,7 +341,7 @@ def run_query(q, shape, scratch_root, tier):
                 for (name, _d, _l) in r.failed[:8]:
                     cb2 += ['--property', name]
                 outp2 = os.path.join(sdir, 'out2.json')
-                rc2, _, _, _ = sh(cb2, timeout=tmo, mem_gb=q.get('mem_gb', 12), stdout_path=outp2)
+                rc2, _, _, _ = sh(cb2, timeout=tmo, mem_gb=int(os.environ.get('KV_MEM_GB', q.get('mem_gb', 12))), stdout_path=outp2)
                 p2 = parse_cbmc_json(outp2)
                 r.trace_inputs = {}      # sliced traces are not replayable
                 if p2[0] is not None:
@@ -354,7 +356,8 @@ def run_query(q, shape, scratch_root, tier):
         return r
     finally:
         r.wall_s = time.time() - t0
-        shutil.rmtree(sdir, ignore_errors=True)
+        if not os.environ.get("KV_KEEP"):
+            shutil.rmtree(sdir, ignore_errors=True)
 
 
 # --------------------------------------------------------------------------- replay
@@ -557,7 +560,8 @@ def check_property(prop, tier, jobs, only=None, shape_filter=None):
             return 2
         return 0
     finally:
-        shutil.rmtree(scratch_root, ignore_errors=True)
+        if not os.environ.get("KV_KEEP"):
+            shutil.rmtree(scratch_root, ignore_errors=True)
 
 
 def write_evidence(prop, tier, seed, pinfo, results, facts, violations, undecided, known_p, wall):
